@@ -198,6 +198,19 @@ CHECKS: dict[str, dict] = {
         "equal the crop, never bleed colours and have exactly the requested size.",
         design_ref="DESIGN.md 3 C17, notes/C17.md",
     ),
+    "C18": dict(
+        technique="TLA+ model of the urwid screen (UrwidScreen.tla on Terminal.tla placements: layouts, canvas views, "
+        "disguise counters, urwid line cache, z-index allocator) explored by TLC; every edge replayed as "
+        "real urwid widget trees through the real UrwidImageScreen.draw_screen; the emitted bytes (urwid's "
+        "own output included) judged by TLC (Trace_UrwidScreen.tla)",
+        text="TLC checks PlacementsExact, DeletionsFirst, OutputBracketed, ClearedOnStartStopClear, DistinctZ and the "
+        "allocator laws over complete state graphs of layout histories (piles, columns, overlays, list "
+        "scrolling, fillers, non-composite tops) for kitty, konsole+iterm2 and other terminals; every "
+        "transition and seeded random widget-tree histories are executed on the real screen and the token "
+        "stream of every redraw is folded through the terminal model: the placements present must be "
+        "exactly those implied by the canvas just drawn.",
+        design_ref="DESIGN.md 3 C18, notes/C18.md",
+    ),
     "C19": dict(
         technique="the documented grammar as a TLA+ recogniser with denotation (FormatSpec.tla; three formulations "
         "checked equivalent and unambiguous by TLC); every string of the specifier alphabet up to a length "
